@@ -407,7 +407,11 @@ def k_random(run, case):
     for k in range(1, n):
         if arr["t"][k] <= arr["t"][k - 1]:
             arr["t"][k] = np.nextafter(arr["t"][k - 1], np.inf)
+    if n >= 3 and rng.random() < .15 and not arr["cls"][0].endswith("+held"):
+        gen.hold(rng, arr)  # stationary stretches (identical consecutive poses)
     mode = "se3" if rng.random() < .5 else "xyzq"
+    if arr["cls"][0].endswith("+held") and rng.random() < .6:
+        mode = "se3"
     stamped = bool(rng.random() < .6)
     L = int(rng.integers(1, 16))
     # ops are drawn against the evolving model size, so generate lazily through a closure
@@ -444,6 +448,8 @@ class LazyOps:
 
 def run_history_lazy(run, case, arr, mode, stamped, lazy):
     fl = gen.rand_flavour(lazy.rng)
+    if mode == "se3" and str(arr.get("cls", ("", ))[0]).endswith("+held") and lazy.rng.random() < .6:
+        fl = "shared"  # identical consecutive poses as one array object
     if gen.all_integer(arr["p"]) and lazy.rng.random() < .5:
         fl = "int" + fl[fl.find("+"):] if "+" in fl else "int"  # whole-number data: half of it as integers
     real = gen.make_evo(arr, mode, stamped, flavour=fl)
